@@ -56,25 +56,13 @@ Proof.
     rewrite (is_compatible_normalised s1 s2 f k Hk0 Hk1 Ak Bk). rewrite A1, B1. reflexivity.
 Qed.
 
-(* is_compatible_with(int), current form: the int is not normalised, so an int naming a split by its
-   side that contains the lowest taxon is judged as a clade: refuted for unrooted bipartitions *)
-Lemma bip_compatible_int_refuted_l :
-  exists a b f r, f <> 0 /\ is_true r = false /\
-    split_compatible (snd (mk_bip a f r)) (Z.land f b) f /\
-    bip_is_compatible_with_int false r (snd (mk_bip a f r)) b f = false /\
-    (* the Bipartition object for the same int is accepted *)
-    bip_is_compatible_with (snd (mk_bip a f r)) (snd (mk_bip b f r)) f = true.
-Proof.
-  exists 6, 13, 15, None. split; [discriminate|]. split; [reflexivity|].
-  split; [right; right; right; reflexivity|]. split; reflexivity.
-Qed.
-
-(* repaired form: for every int, exactly set-theoretic compatibility with the split the int names *)
+(* is_compatible_with(int): for every int, exactly set-theoretic compatibility with the split the int
+   names (either side may be given) *)
 Lemma bip_compatible_int_repaired_l a b f r : f <> 0 -> is_true r = false ->
-  bip_is_compatible_with_int true r (snd (mk_bip a f r)) b f = true <->
+  bip_is_compatible_with_int r (snd (mk_bip a f r)) b f = true <->
   split_compatible (snd (mk_bip a f r)) (snd (mk_bip b f r)) f.
 Proof.
-  intros Hf R. unfold bip_is_compatible_with_int. rewrite R. cbn [negb andb].
+  intros Hf R. unfold bip_is_compatible_with_int. rewrite R. cbn [negb].
   pose proof (bip_compatible_spec_l a b f r Hf) as H. cbv zeta in H. rewrite R in H.
   unfold bip_is_compatible_with in H. rewrite <- H. clear H.
   assert (E : py_normalize_bitmask b f (py_least_significant_set_bit f) = snd (mk_bip b f r)).
